@@ -705,6 +705,8 @@ class Peer:
         # Timing instrumentation for peer message loop
         peer_loop_timer = LoopTimer(f'peer_main_{self.id()}', warn_threshold_ms=50)
 
+        read_task: asyncio.Future[Message] | None = None
+
         try:
             while not self._teardown:
                 peer_loop_timer.start()
@@ -717,10 +719,17 @@ class Peer:
                     self._neighbor.previous = None
                     self._neighbor = None
 
-                # Read message with timeout
-                try:
-                    message = await asyncio.wait_for(self.proto.read_message(), timeout=0.1)
-                except asyncio.TimeoutError:
+                # Read message with timeout. The read is a task which survives the timeout:
+                # asyncio.wait_for would cancel it, and a read cancelled after the header
+                # (or part of the body) was consumed loses those bytes, so the next read
+                # starts in the middle of a message
+                if read_task is None:
+                    read_task = asyncio.ensure_future(self.proto.read_message())
+                done, _ = await asyncio.wait({read_task}, timeout=0.1)
+                if done:
+                    finished, read_task = read_task, None
+                    message = finished.result()
+                else:
                     message = _NOP
                     await asyncio.sleep(0)
 
@@ -768,6 +777,10 @@ class Peer:
         except Exception as exc:
             log.error(lazyexc('async.mainloop.exception error={exc}', exc), self.id())
             raise
+        finally:
+            # the session is over either way: nothing will consume a read still in flight
+            if read_task is not None and not read_task.done():
+                read_task.cancel()
 
         # Graceful restart handling
         log.debug(
